@@ -2906,9 +2906,10 @@ void do_message (svalue_t * msg_class, svalue_t * msg, array_t * scope, array_t 
         {
           array_t *tmp;
 
-          tmp = all_inventory (ob, 1);
+          /* receive_message() can raise: keep the inventory on the stack so that it is released then */
+          push_refed_array (tmp = all_inventory (ob, 1));
           do_message (msg_class, msg, tmp, exclude, 0);
-          free_array (tmp);
+          pop_stack ();
         }
     }
 }
